@@ -229,20 +229,31 @@ func fmtTotal(s selInfo) string {
 	return fmt.Sprint(s.v)
 }
 
-// runFindDp calls FindDpSolvers on a guarded private copy of items.
+// runFindDp calls FindDpSolvers on a guarded private copy of items. bk < 0: no
+// tie-breaker, passed as an explicit nil function value instead of being left out.
 func runFindDp(c *ev.Case, pfx string, items []item, maxValue int, allow bool, bk int, salt uint64, st *brStat) (*fdCall, bool) {
+	explicitNil := bk < 0
+	if explicitNil {
+		bk = 0
+	}
 	br := mkBreaker(bk, salt, st)
 	in, inputIntact := input(c, pfx, items)
 	f := &fdCall{pfx: pfx, items: items, maxValue: maxValue, allow: allow}
 	f.desc = func() string {
-		return fmt.Sprintf("FindDpSolvers(maxValue=%d, values=%s, allowOverOnce=%v, tieBreaker=%s)", maxValue, fmtVals(items), allow, breakerNames[bk])
+		name := breakerNames[bk]
+		if explicitNil {
+			name = "nil (passed explicitly)"
+		}
+		return fmt.Sprintf("FindDpSolvers(maxValue=%d, values=%s, allowOverOnce=%v, tieBreaker=%s)", maxValue, fmtVals(items), allow, name)
 	}
 	if c.Logging() {
 		c.Logf("%s ...", f.desc())
 	}
 	vf := func(it item) int { return it.V }
 	if !c.Guard("FindDpSolvers", func() {
-		if br == nil {
+		if explicitNil {
+			f.dp = algz.FindDpSolvers(maxValue, in, vf, allow, br) // br is a nil func value
+		} else if br == nil {
 			f.dp = algz.FindDpSolvers(maxValue, in, vf, allow)
 		} else {
 			f.dp = algz.FindDpSolvers(maxValue, in, vf, allow, br)
